@@ -21,7 +21,28 @@ fn bounds(r: &mut Rng) -> Value {
         vec![b("LI", Some((-2, 1)))], vec![b("UI", Some((5, 1)))], vec![b("LI", Some((0, 1))), b("UI", Some((1, 1)))], vec![b("UP", Some((1, 1)))],
         vec![b("UP", Some((5, 2))), b("LO", Some((-1, 4)))], vec![b("LO", Some((-4, 1))), b("UP", Some((-1, 1)))],
     ];
-    json!(sc[r.below(sc.len() as u64) as usize])
+    if r.chance(1, 2) {
+        return json!(sc[r.below(sc.len() as u64) as usize]);
+    }
+    // a lower-type and/or an upper-type directive in either order, values on both sides of 0 and 0 itself
+    let vals = [(-2, 1), (0, 1), (1, 1), (4, 1), (5, 2), (-1, 4)];
+    let lower = match r.below(4) {
+        0 => None,
+        1 => Some(b("MI", None)),
+        2 => Some(b("LO", Some(*r.pick(&vals)))),
+        _ => Some(b("LI", Some(*r.pick(&vals[..4])))),
+    };
+    let upper = match r.below(4) {
+        0 => None,
+        1 => Some(b("PL", None)),
+        2 => Some(b("UP", Some(*r.pick(&vals)))),
+        _ => Some(b("UI", Some(*r.pick(&vals[..4])))),
+    };
+    let mut v: Vec<Value> = lower.into_iter().chain(upper).collect();
+    if r.chance(1, 2) {
+        v.reverse();
+    }
+    json!(v)
 }
 pub fn generate(group: &str, r: &mut Rng, n: usize) -> Option<Vec<Value>> {
     let mut out = Vec::new();
